@@ -61,7 +61,10 @@ def run_case(case):
         n, ctxk = case["n"], case.get("ctx")
         g = torch.Generator().manual_seed(case["seed"] + 1)
         X, _ = zoo.gen_inputs(b, n, case["seed"] + 2, 0.0, 1.0, dom=case["dom"])
-        if case["zeros"] and case["dom"] == "R" and not _has(case["spec"], ("leakyrelu",)):
+        # an exact 0 is a smooth point of tanh-like maps (LogTanh's kinks are at +-cut) but a knot of identity-initialised
+        # splines, the kink of LeakyReLU and possibly of ReLU conditioners: inject it only where the map is smooth there
+        if case["zeros"] and case["dom"] == "R" and not _has(case["spec"], ("leakyrelu",)) and "spline" not in b.tags \
+                and not any("spline" in t for t in b.tags) and b.smooth and _has(case["spec"], ("logtanh", "tanh", "sigmoid", "exp", "paffine", "lu")):
             X.reshape(n, -1)[0, 0] = 0.0
         C = zoo.gen_context(b, ctxk, n, case["seed"]) if ctxk is not None else None
         target = case["target"]
